@@ -187,7 +187,7 @@ def run(rep, tier, seed):
         hits.append((small, "%s: sets %d and %d give different results" % (what, pair[0], pair[1]), rp))
 
     # ---------------- (a) generated core recipes ----------------
-    n_core = 400 if tier == "quick" else 20000
+    n_core = 400 if tier == "quick" else 6000
     core = gen_core(rng, n_core)
     core_ok = []
     for t, e, info in core:
@@ -220,7 +220,7 @@ def run(rep, tier, seed):
                 reading_mismatch.append({"input": t, "diff": d})
 
     # ---------------- (b) the eight families ----------------
-    n_fam = 100 if tier == "quick" else 2000
+    n_fam = 100 if tier == "quick" else 500
     fam_stats = {}
     fam_inputs = []
     for fam in cg.FAMILIES:
@@ -294,7 +294,10 @@ def run(rep, tier, seed):
     order = sets[:]
     random.Random(seed * 7919 + 1).shuffle(order)
     chunks = [order[i:i + 8] for i in range(0, len(order), 8)]
-    lev_inputs = [t for t, _, _ in core_ok] + fam_inputs + strings
+    # thorough: every string up to length 4 and every 8th longer one (the model is the budget)
+    lev_strings = strings if tier == "quick" else \
+        [s for s in strings if len(s) <= 4] + [s for s in strings if len(s) > 4][::8]
+    lev_inputs = [t for t, _, _ in core_ok] + fam_inputs + lev_strings
     dis = []
     lev_cases = 0
     by_chunk = [[] for _ in chunks]
